@@ -304,10 +304,11 @@ func genCred(t *rapid.T) cred {
 		in := b64([]byte(h)) + "." + b64([]byte(payload))
 		c.Token = in + "." + b64(rapid.SliceOfN(rapid.Byte(), 64, 256).Draw(t, "sigBytes"))
 	case "expired":
-		off := rapid.Int64Range(60, 10_000_000).Draw(t, "ago")
+		// (also just outside the window: a token is valid or it is not, there is no grace period)
+		off := rapid.OneOf(rapid.SampledFrom([]int64{3, 4, 5, 10, 20, 29, 31, 45}), rapid.Int64Range(60, 10_000_000)).Draw(t, "ago")
 		c.Token = makeToken(hdr, fmt.Sprintf(`{"sub":%q,"exp":%d}`, sub, now-off), "HS256", []byte(secret))
 	case "notYetValid":
-		off := rapid.Int64Range(60, 10_000_000).Draw(t, "ahead")
+		off := rapid.OneOf(rapid.SampledFrom([]int64{3, 4, 5, 10, 20, 29, 31, 45}), rapid.Int64Range(60, 10_000_000)).Draw(t, "ahead")
 		c.Token = makeToken(hdr, fmt.Sprintf(`{"sub":%q,"nbf":%d}`, sub, now+off), "HS256", []byte(secret))
 	case "tamperedPayload":
 		v := validToken()
@@ -373,10 +374,10 @@ func carriesValidToken(s string) bool {
 			return true
 		}
 		now := float64(time.Now().Unix())
-		if exp, ok := claims["exp"].(float64); ok && exp < now-30 {
+		if exp, ok := claims["exp"].(float64); ok && exp < now-2 {
 			continue
 		}
-		if nbf, ok := claims["nbf"].(float64); ok && nbf > now+30 {
+		if nbf, ok := claims["nbf"].(float64); ok && nbf > now+2 {
 			continue
 		}
 		return true
@@ -464,7 +465,7 @@ func checkDiscovery(t testing.TB, rs []route, profiling bool) {
 
 // TestC14 enumerates route x method x credential class x transport and random variants.
 func TestC14(t *testing.T) {
-	col := ev.Get("C14", "routes", "routes and methods discovered with chi.Walk over the server's router (profiling on and off) x both slash variants and spellings of the path with dot segments, doubled slashes or the profiling prefix in front x all HTTP methods x generated invalid credentials of 23 classes (none, empty, garbage, oversized, wrong scheme, wrong/prefix/empty secret, alg none with/without signature, HS384/HS512/RS256 headers with the right secret, expired, not yet valid, tampered payload/header, truncated/bit-flipped signature, 2/4/5 segments, signature of another payload) x 6 transports (Authorization in three spellings, cookie, query, header+cookie); oracle: registered (method,route) => exactly 401, any other => not 2xx; body reveals none of the planted ids/names/log and variable markers; runner state identical before and after; profiling off => /debug paths 404; positive controls with a valid token must pass; non-trivial = every probe of a registered route; distinct by (method, route, credential class, transport)")
+	col := ev.Get("C14", "routes", "routes and methods discovered with chi.Walk over the server's router (profiling on and off) x both slash variants and spellings of the path with dot segments, doubled slashes or the profiling prefix in front x all HTTP methods x generated invalid credentials of 23 classes (none, empty, garbage, oversized, wrong scheme, wrong/prefix/empty secret, alg none with/without signature, HS384/HS512/RS256 headers with the right secret, expired or not yet valid (from 3 s outside the window), tampered payload/header, truncated/bit-flipped signature, 2/4/5 segments, signature of another payload) x 6 transports (Authorization in three spellings, cookie, query, header+cookie); oracle: registered (method,route) => exactly 401, any other => not 2xx; body reveals none of the planted ids/names/log and variable markers; runner state identical before and after; profiling off => /debug paths 404; positive controls with a valid token must pass; non-trivial = every probe of a registered route; distinct by (method, route, credential class, transport)")
 	for _, profiling := range []bool{false, true} {
 		w := newWorld(t, profiling)
 		rs := walk(t, w.handler)
